@@ -4,7 +4,7 @@ import glob, json, os, shutil, sys
 sid = sys.argv[1]
 checks = sys.argv[2].split(",")
 src = "/tmp/seed%s/%s/OUT" % (os.environ.get("SEED_ROUND", "2"), sid)
-nid = sid + {"2": "b", "3": "c", "4": "d", "5": "e", "6": "f", "7": "g", "8": "h", "9": "i", "10": "j"}[os.environ.get("SEED_ROUND", "2")]
+nid = sid + {"2": "b", "3": "c", "4": "d", "5": "e", "6": "f", "7": "g", "8": "h", "9": "i", "10": "j", "11": "k"}[os.environ.get("SEED_ROUND", "2")]
 dst = "/verif/seeded/%s" % nid
 os.makedirs(dst, exist_ok=True)
 for f in glob.glob(src + "/*"):
@@ -14,9 +14,9 @@ m = json.load(open(src + "/meta.json"))
 ROUND = os.environ.get("SEED_ROUND", "2")
 m["origin"] = ("independent sub-agent (round 8), given only the property record (statement, quantifier, why tests cannot settle it, anchor files), a kind of "
                "manifestation to aim for, anchor files to look at first, the note that earlier rounds had produced simple one-site changes, and a scratch worktree of /repo"
-               ) if ROUND in ("8", "9") else ("independent sub-agent (round 10), given only the property record (statement, quantifier, why tests cannot settle it, anchor files), a kind of "
+               ) if ROUND in ("8", "9") else ("independent sub-agent (rounds 10 and 11), given only the property record (statement, quantifier, why tests cannot settle it, anchor files), a kind of "
                "manifestation to aim for (thresholds / accumulated state, rarely taken error paths, feature combinations, cluster shapes, purge timing, fault points combined with client configuration), "
-               "the note which simple ideas earlier rounds had already used, and a scratch worktree of /repo; nothing from /verif") if ROUND == "10" else ("independent sub-agent (later round), given only the property text, a hint which files to look at, and a scratch "
+               "the note which simple ideas earlier rounds had already used, and a scratch worktree of /repo; nothing from /verif") if ROUND in ("10", "11") else ("independent sub-agent (later round), given only the property text, a hint which files to look at, and a scratch "
                "worktree of /repo at 1b3edbd") if os.environ.get("SEED_ROUND", "2") in ("2", "3") else (
                "independent sub-agent (round 4), given only the property record (statement, quantifier, why tests cannot settle it, anchor files), "
                "a kind of manifestation to aim for, and a scratch worktree of /repo")
